@@ -1,7 +1,7 @@
 (* Entry points of the executable model, by name. One dispatcher so that the OCaml driver and
    the in-Coq case files need no per-function glue. *)
 From Coq Require Import ZArith NArith List String Bool.
-From Sia Require Import Prim.Result Prim.Tok Currency.Model Merkle.Tree Merkle.Update Merkle.UpdateProofs Merkle.Forest Merkle.Acc Merkle.Rhp Policy.Model Pow.Model Codec.Schema Codec.Shape Codec.Irregular Gen.Schemas Codec.Wire Ledger.Types Ledger.Mid Ledger.Validate Ledger.Apply Hash.Ids Merkle.Multi Gateway.Outline Rhp4.Model Codec.Size Gen.Limits Codec.Framing Text.Hex Text.Currency Text.PolicyText.
+From Sia Require Import Prim.Result Prim.Tok Currency.Model Merkle.Tree Merkle.Update Merkle.UpdateProofs Merkle.Forest Merkle.Acc Merkle.Rhp Policy.Model Pow.Model Codec.Schema Codec.Shape Codec.Irregular Gen.Schemas Codec.Wire Ledger.Types Ledger.Mid Ledger.Validate Ledger.Apply Merkle.StorageProof Hash.Ids Merkle.Multi Gateway.Outline Rhp4.Model Codec.Size Gen.Limits Codec.Framing Text.Hex Text.Currency Text.PolicyText.
 Import ListNotations.
 Open Scope string_scope.
 Open Scope list_scope.
@@ -595,6 +595,18 @@ Section Dispatch.
     | "c12.raw", [TB i; TZ k] => [TB (H (id_index_args i (Z.to_N k)))]
     | "c05.run", _ => api_c05 args
     | "c05.update", _ => api_c05_update args
+    | "c07.prove", _ =>
+      match run_parser (let* ls := plist pB in let* i := pnat in let* sz := pZ in pret (ls, i, sz)) args with
+      | Some (ls, i, sz) =>
+        let proof := sp_prove H (List.length ls) ls i in
+        (t_hashes proof ++ [TB (Rhp.mroot H ls); TB (sp_root_v2 H (nth i ls []) (Z.of_nat i) sz proof)])%list
+      | None => bad_args
+      end
+    | "c07.verify", _ =>
+      match run_parser (let* pr := plist pB in let* x := pB in let* i := pZ in let* sz := pZ in pret (pr, x, i, sz)) args with
+      | Some (pr, x, i, sz) => [TB (sp_root_v2 H x i sz pr)]
+      | None => bad_args
+      end
     | "c05.leafhash", [TB e; TZ i; TZ s] => [TB (leaf_hash H (mkLeaf e (Z.to_N i) (negb (Z.eqb s 0))))]
     | "c05.proofroot", TB x :: TZ i :: ps => [TB (proofRootN H x (Z.to_N i) (List.concat (map (fun t => match t with TB b => [b] | _ => [] end) ps)))]
     | _, _ => bad_args
